@@ -107,10 +107,7 @@ theorem parseVSlots_rel {v1 v2 : Node} (hv : HintRel v1 v2) : DirRel (parseVSlot
   unfold parseVSlots
   rcases (containerExpr_rel hv).elim with ⟨h1, h2⟩ | ⟨e1, e2, h1, h2, he⟩
   · rw [h1, h2]; simp [DirRel, OptRel]
-  · rw [h1, h2]
-    cases he with
-    | vnode => simp [DirRel, OptRel]
-    | node k as hl => cases k <;> simp [DirRel, OptRel] <;> exact HintRel.node _ _ hl
+  · rw [h1, h2]; simpa [DirRel, OptRel] using he
 
 theorem nullArg_rel (c : Bool) {a1 a2 : Option Node} (h : OptRel a1 a2) :
     OptRel (if c && a1.isNone then some nNull else a1) (if c && a2.isNone then some nNull else a2) := by
